@@ -236,7 +236,7 @@ theorem fresh_coerce (hwf : WF C) (htot : ∀ p xs, (W.getter p xs).isSome = tru
   obtain ⟨h1, h2⟩ := h r hr hrp v hv
   exact ⟨h1, fun _ => h2 (by simp)⟩
 
-/-- the dependants loop (schema.py:339-344) discharges the pending set -/
+/-- the dependants loop (schema.py:343-348) discharges the pending set -/
 theorem pending_loop (hwf : WF C) (htot : ∀ p xs, (W.getter p xs).isSome = true) {f : Field} (hf : f ∈ C.fields) :
     ∀ (l : List String), (∀ q ∈ l, q ∈ f.dependants) → ∀ s : State V, FreshPending C W l s →
       Fresh C W (l.foldl (fun s q =>
